@@ -219,9 +219,11 @@ func AttrNextHop(ip [4]byte) WAttr {
 
 func u32(v uint32) []byte { return binary.BigEndian.AppendUint32(nil, v) }
 
-func AttrMED(v uint32) WAttr       { return WAttr{Flags: FlOptional, Type: AtMED, Value: u32(v)} }
-func AttrLocalPref(v uint32) WAttr { return WAttr{Flags: FlTransitive, Type: AtLocalPref, Value: u32(v)} }
-func AttrAtomicAggr() WAttr        { return WAttr{Flags: FlTransitive, Type: AtAtomicAggr} }
+func AttrMED(v uint32) WAttr { return WAttr{Flags: FlOptional, Type: AtMED, Value: u32(v)} }
+func AttrLocalPref(v uint32) WAttr {
+	return WAttr{Flags: FlTransitive, Type: AtLocalPref, Value: u32(v)}
+}
+func AttrAtomicAggr() WAttr { return WAttr{Flags: FlTransitive, Type: AtAtomicAggr} }
 func AttrOriginatorID(v uint32) WAttr {
 	return WAttr{Flags: FlOptional, Type: AtOriginatorID, Value: u32(v)}
 }
